@@ -192,6 +192,10 @@ func (g *ExprGen) Gen() Expr {
 		switch k := r.IntN(12); {
 		case k < 6:
 			op := Pick(r, ArithOps)
+			if (op == "<<" || op == ">>") && r.IntN(6) == 0 {
+				// shift counts at and beyond the word size
+				return Bin{op, g.intLeaf(), NumLit{float64(Pick(r, []int{64, 65, 70, 100, 128, 1000}))}}
+			}
 			if isIntOp(op) {
 				// integer operators get integer-looking operands most of the time
 				if r.IntN(4) > 0 {
